@@ -248,7 +248,17 @@ def kernel(c, kind, a, tr, rnd):
                 Wf = worlds[f]
                 b = 0
                 if ev & POLLIN and (Wf.available() > 0 or Wf.eof()):
-                    b |= POLLIN
+                    # segmentation in TIME as well: the FIRST zero-time-out look at a stream position may come before the next
+                    # segment has arrived (decided per position; every later look finds it: arrival is monotone)
+                    looked = 0
+                    for k2, a2 in reversed(tr):
+                        if k2 == 4 and a2[0] == f:
+                            break
+                        if k2 == 2 and f in a2[3::2]:
+                            looked += 1
+                    gap = zlib.crc32(("%s/%d/%d" % (c.id.split("-")[0], f, Wf.available())).encode()) % 100 < p["nw"]
+                    if not (timeout == 0 and Wf.available() > 0 and looked == 0 and gap):
+                        b |= POLLIN
                 if ev & POLLOUT and (timeout < 0 or rnd.randrange(100) >= p["nw"]):
                     b |= POLLOUT
                 rev.append(b)
@@ -317,7 +327,7 @@ def gen_ops(rnd, role, level):
             if pending is not None or rnd.random() < 0.5:
                 # usage rule: a Send that did not take everything is retried with the same (remaining) data: sizes that differ
                 # are generated too, the model marks them Stuck and the case is dropped from the non-trivial count
-                size = rnd.choice([1, 5, 40, 1000, 20000])
+                size = rnd.choice([1, 5, 40, 1000, 20000, 20000, 150000, 400000])     # up to 25 TLS records in one Send
                 ops.append((23, [1, size, rnd.choice(TS)]))
             elif level == "buffered":
                 ops.append((32, [1, rnd.choice(TS)]))
@@ -331,7 +341,7 @@ def gen_ops(rnd, role, level):
         p_send = rnd.choice([0.0, 0.25, 0.25])
         for _ in range(rnd.choice([4, 8, 12, 20])):
             if rnd.random() < p_send:
-                ops.append((1061, [1, 8, rnd.choice([1, 5, 40, 1000])]))
+                ops.append((1061, [1, 8, rnd.choice([1, 5, 40, 1000, 1000, 170000])]))
             else:
                 ops.append((1041, [rnd.choice([0, 0, 3, 3, -1])]))
         ops += [(1041, [0])] * 14
@@ -585,7 +595,7 @@ def project(tr):
 
 
 def real_openssl_stage(rep, tier, seed):
-    """two end-to-end regressions against REAL OpenSSL (no scripted engine): the library of /repo's current tree built WITH_TLS
+    """end-to-end regressions against REAL OpenSSL (no scripted engine): the library of /repo's current tree built WITH_TLS
     and linked with libssl; real loopback sockets, real handshakes. f8: asynchronous server, blocking client that sends right behind
     its Finished, writability polls on the driver thread delayed (interposed poll); f9: asynchronous client that only listens."""
     import shutil, tempfile
@@ -604,7 +614,8 @@ def real_openssl_stage(rep, tier, seed):
                 rep.cov["real_openssl"] = "skipped: could not create a certificate (%s)" % k.stderr[-200:]
                 return []
         runs = []
-        for name, argsets in (("f8_pending_data_demo", [["0", "2"], ["1", "1"], ["1", "2"], ["2", "2"]]), ("f9_idle_client_demo", [[]])):
+        for name, argsets in (("f8_pending_data_demo", [["0", "2"], ["1", "1"], ["1", "2"], ["2", "2"]]), ("f9_idle_client_demo", [[]]),
+                              ("f10_large_send_demo", [["147457"], ["1000000"]]), ("f12_async_large_buffer_demo", [["100000", "60"]])):
             exe = os.path.join(libdir, name)
             src = os.path.join(VERIF, "corpus", "real_openssl", name + ".cpp")
             if not os.path.exists(exe) or os.path.getmtime(exe) < os.path.getmtime(src):
@@ -638,7 +649,7 @@ def real_openssl_stage(rep, tier, seed):
 def corpus():
     import os
     out = []
-    for name in ("C18_pending_data.txt", "C18_idle_client.txt"):
+    for name in ("C18_pending_data.txt", "C18_idle_client.txt", "C18_large_send.txt", "C18_large_send_async.txt", "C18_stale_view.txt"):
         f = os.path.join(VERIF, "corpus", name)
         if os.path.exists(f):
             out += parse_cases(open(f).read())
